@@ -175,6 +175,12 @@ pub fn run_case(ctx: &Ctx, case: &Case) -> Outcome {
                     break;
                 }
             }
+            // ... and only changes: a value the watcher is told must be one the count went through, in that order
+            // ("$connections always equals the number of open sessions": a value pushed to a watcher that the count never
+            // had is the key holding a wrong number for a moment)
+            if fail.is_none() && got_seq[d] != want_seq[d] {
+                fail = Some(("C17|watcher-told-a-count-that-never-was".into(), format!("database {}: count went through {:?} but the watcher was notified {:?}", DBS[d], want_seq[d], got_seq[d])));
+            }
             if got_seq[d].last().map(|s| s.as_str()).unwrap_or("1") != "1" && fail.is_none() {
                 fail = Some(("C17|watcher-last-value".into(), format!("database {}: after the burst the last notified value is {:?}", DBS[d], got_seq[d].last())));
             }
